@@ -53,9 +53,13 @@ Record kst := { kp : list N;                       (* IPs for which a CreatePerm
 Definition k_step (st : kst) (o : cobs) : bool * kst :=
   let w := co_wire o in
   (* permissions that this step's successful CreatePermission establishes *)
-  let new_perms := match co_ev o, co_ret o with
-                   | CWrite p _ _, RWrote _ => [ip p]
-                   | _, _ => [] end in
+  (* the server granted one iff it answered success to a CreatePermission request that was really sent: the k-th
+     request on the wire consumes the k-th scripted reaction *)
+  let nreq := length (filter (fun m => match m with WCreatePerm _ => true | _ => false end) w) in
+  let new_perms := match co_ev o with
+                   | CWrite p _ reacts =>
+                       if existsb (fun r => match r with POk => true | _ => false end) (firstn nreq reacts) then [ip p] else []
+                   | _ => [] end in
   let kp' := new_perms ++ kp st in
   let kc' := match co_ev o with CBindReact p BOk =>
                match find (fun x => addr_eqb (fst x) p) (knums st) with Some x => (snd x, p) :: kc st | None => kc st end
